@@ -45,7 +45,7 @@ def cases(tier, seed):
     sizes = [1, 2, 3, 255, 256, 257, 300, 511, 512, 513, 700]
     big = [1023, 1024, 1025]
     combos = [(f, m) for f in FMT_MODES for m in FMT_MODES[f]]
-    n = 150 if tier == "quick" else 900
+    n = 150 if tier == "quick" else 3000
     for i in range(n):
         fmt, mode = combos[i % len(combos)]
         w = R.choice(sizes + (big if i % 7 == 0 else []) + [R.randrange(1, 800)])
